@@ -69,15 +69,14 @@ pub fn load_configs_raw(config_files: Vec<PathBuf>, partial_emmyrcs: Option<Vec<
         let flatten_config = FlattenConfigObject::parse(first_config);
         flatten_config.to_emmyrc()
     } else {
-        let merge_config =
-            config_jsons
-                .into_iter()
-                .fold(Value::Object(Default::default()), |mut acc, item| {
-                    merge_values(&mut acc, item);
-                    acc
-                });
-        let flatten_config = FlattenConfigObject::parse(merge_config.clone());
-        flatten_config.to_emmyrc()
+        // normalize every file first (dotted flat keys -> nested objects), so that a later file
+        // wins whichever spelling each of the files uses for a setting
+        let mut merge_config = Value::Object(Default::default());
+        for config_json in config_jsons {
+            let normalized = FlattenConfigObject::parse(config_json).to_emmyrc();
+            merge_values(&mut merge_config, normalized);
+        }
+        merge_config
     }
 }
 
